@@ -165,7 +165,7 @@ class Chipset(pn53x.Chipset):
             if src in wakeup_enable:
                 wakeup_set |= 1 << i
         data = self.command(0x16, bytearray([wakeup_set]), timeout=0.1)
-        if data[0] != 0:
+        if not data or data[0] != 0:
             self.chipset_error(data)
 
     def tg_init_tama_target(self, mode, mifare_params, felica_params,
